@@ -126,6 +126,33 @@ def pipe_stream(data: bytes, burst=None):
     return io.BufferedReader(PipeLike(data, burst), buffer_size=64)
 
 
+SOURCES = ["bytesio", "bytesio", "buffered:16", "buffered:64", "buffered:8192", "file", "pipe:7", "tracking"]
+
+
+def make_source(data: bytes, kind="bytesio"):
+    """The same bytes behind different file-like objects: BytesIO; a buffered
+    reader (has peek(), read1(), readinto()) with a small or default buffer; a
+    real temporary file; a non-seekable pipe-like raw stream with short reads;
+    a minimal read/readline object."""
+    if kind == "bytesio":
+        return io.BytesIO(data)
+    if kind.startswith("buffered:"):
+        return io.BufferedReader(io.BytesIO(data), buffer_size=int(kind.split(":")[1]))
+    if kind == "file":
+        import tempfile
+
+        f = tempfile.TemporaryFile()
+        f.write(data)
+        f.flush()
+        f.seek(0)
+        return f
+    if kind.startswith("pipe:"):
+        return pipe_stream(data, int(kind.split(":")[1]))
+    if kind == "tracking":
+        return TrackingStream(data)
+    raise ValueError(kind)
+
+
 class ScriptedSocket(socket.socket):
     """A real socket object (passes isinstance checks) whose recv() is scripted:
     hands out `data` following `chunks` (sizes), never more than bufsize, then
